@@ -244,11 +244,12 @@ DEF_TS = __import__('re').compile(r'^export (?:interface|type|enum|const) ([A-Za
 
 
 def run_unit(args):
-    """files: {relative path: text} of ONE crate; runs the real binary (TypeScript) in single-file and in folder mode"""
+    """files: {relative path: text} of ONE crate (a path containing /src/ is taken relative to the workspace instead: crates whose
+    directory names normalise to `unit`); runs the real binary (TypeScript) in single-file and in folder mode"""
     files, = args
     d = vf.tmpdir()
     for rel, txt in files.items():
-        q = d / 'ws' / 'unit' / 'src' / rel
+        q = d / 'ws' / rel if '/src/' in rel else d / 'ws' / 'unit' / 'src' / rel
         q.parent.mkdir(parents=True, exist_ok=True)
         q.write_text(txt)
     (d / 'multi').mkdir()
@@ -282,6 +283,13 @@ def phase_units(chk, good_sources, rng, n):
         bad = rng.random() < 0.25
         if bad:
             files['broken.rs'] = '#[typeshare]\npub struct Broken { pub a: u64 }\n'
+        if k % 4 == 3:
+            # the same crate name reached through several directories (a vendored copy, a workspace member spelled with a dash)
+            # with files at the SAME path below src: all of them belong to the unit (seeded C03_f: files de-duplicated by
+            # (normalised crate name, path below src))
+            files = {('vendor/unit/src/' if j % 2 else 'members/unit/src/') + rel if rel.startswith('consts') else rel: t for j, (rel, t) in enumerate(files.items())}
+            files['vendor/unit/src/lib.rs'] = f'#[typeshare]\npub struct VendoredLib{k} {{ pub a: u8 }}\n'
+            files['members/unit/src/lib.rs'] = f'#[typeshare]\npub struct MemberLib{k} {{ pub a: u8 }}\n'
         units.append((files, bad))
     singles = {}
     uniq = sorted({t for files, _ in units for t in files.values()})
@@ -292,7 +300,7 @@ def phase_units(chk, good_sources, rng, n):
     for k, ((files, bad), o) in enumerate(zip(units, outs)):
         chk.evaluations += 1
         chk.count('merged_units')
-        want = sorted(n_ for rel, t in files.items() if rel != 'broken.rs' for n_ in (singles[t]['single']['names'] or []))
+        want = sorted(n_ for rel, t in files.items() if not rel.endswith('broken.rs') for n_ in (singles[t]['single']['names'] or []))
         for mode in ('single', 'multi'):
             r = o[mode]
             payload = {'part': 'units', 'mode': mode, 'files': files, 'expected_names': want, 'observed': r}
